@@ -126,10 +126,10 @@ func C03(env *Env) {
 					{rule: "R1/" + d.name, name: "header-single", m: pat.Bin("==", pat.Len(pat.Res("0", hdr)), pat.Const("1")), expect: "exactly one issuer-chain header value"},
 					{rule: "R1/" + d.name, name: "header-unescape", m: pat.Bin("==", pat.Res("1", unesc), pat.Const("nil")), expect: "url.QueryUnescape(header value) error == nil"},
 					{rule: "R1/" + d.name, name: "pem0-present", m: pat.Bin("!=", pat.Res("0", dec0), pat.Const("nil")), expect: "first PEM block present"},
-					{rule: "R1/" + d.name, name: "pem0-more", m: pat.Bin("!=", pat.Len(pat.Res("1", dec0)), pat.Const("0")), expect: "bytes remain after the first PEM block"},
+					{rule: "R1/" + d.name, name: "pem0-more", m: pat.NonEmpty(pat.Res("1", dec0)), expect: "bytes remain after the first PEM block"},
 					{rule: "R1/" + d.name, name: "pem0-type", m: pat.Bin("==", pat.Field(pat.Res("0", dec0), "Type"), pat.Const(`"CERTIFICATE"`)), expect: "first block is a CERTIFICATE"},
 					{rule: "R1/" + d.name, name: "pem1-present", m: pat.Bin("!=", pat.Res("0", dec1), pat.Const("nil")), expect: "second PEM block present"},
-					{rule: "R1/" + d.name, name: "pem1-last", m: pat.Bin("==", pat.Len(pat.Res("1", dec1)), pat.Const("0")), expect: "nothing remains after the second PEM block"},
+					{rule: "R1/" + d.name, name: "pem1-last", m: pat.Empty(pat.Res("1", dec1)), expect: "nothing remains after the second PEM block"},
 					{rule: "R1/" + d.name, name: "pem1-type", m: pat.Bin("==", pat.Field(pat.Res("0", dec1), "Type"), pat.Const(`"CERTIFICATE"`)), expect: "second block is a CERTIFICATE"},
 				}
 				specs = append(specs, certGates(env, "R1/"+d.name, "issuer-root", root, root, "Intel SGX Root CA")...)
@@ -154,7 +154,7 @@ func C03(env *Env) {
 				der := pat.Call("abi.SignatureToDER", pat.Res("0", hexd))
 				lookupRaw := pat.Op(flow.OpLookup, "", pat.Is(dt.decBody), pat.Const(fmt.Sprintf("%q", d.member)))
 				specs = append(specs,
-					gateSpec{rule: "R2/" + d.name, name: "body-nonempty", m: pat.Bin("!=", pat.Len(pat.Is(dt.body)), pat.Const("0")), expect: "len(response body) != 0"},
+					gateSpec{rule: "R2/" + d.name, name: "body-nonempty", m: pat.NonEmpty(pat.Is(dt.body)), expect: "len(response body) != 0"},
 					gateSpec{rule: "R2/" + d.name, name: "raw-member-present", m: pat.Res("1", lookupRaw), expect: fmt.Sprintf("raw JSON member %q present in the body", d.member)},
 					gateSpec{rule: "R2/" + d.name, name: "sig-hex", m: pat.Bin("==", pat.Res("1", hexd), pat.Const("nil")), expect: "hex.DecodeString(signature) error == nil"},
 					gateSpec{rule: "R2/" + d.name, name: "sig-der", m: pat.Bin("==", pat.Res("1", der), pat.Const("nil")), expect: "abi.SignatureToDER(signature) error == nil"},
@@ -167,7 +167,7 @@ func C03(env *Env) {
 				specs = append(specs,
 					gateSpec{rule: "R4/" + d.name, name: "id", m: pat.Bin("==", pat.Field(dr, "ID"), pat.Const(fmt.Sprintf("%q", d.id))), expect: fmt.Sprintf("%s.id == %q (decoded from the signed member)", d.name, d.id)},
 					gateSpec{rule: "R4/" + d.name, name: "version", m: pat.Bin("==", pat.Field(dr, "Version"), pat.Const(d.version)), expect: fmt.Sprintf("%s.version == %s (decoded from the signed member)", d.name, d.version)},
-					gateSpec{rule: "R4/" + d.name, name: "levels-nonempty", m: pat.Bin("!=", pat.Len(pat.Field(dr, "TcbLevels")), pat.Const("0")), expect: d.name + ".tcbLevels non-empty (decoded from the signed member)"},
+					gateSpec{rule: "R4/" + d.name, name: "levels-nonempty", m: pat.NonEmpty(pat.Field(dr, "TcbLevels")), expect: d.name + ".tcbLevels non-empty (decoded from the signed member)"},
 					gateSpec{rule: "R4/" + d.name, name: "raw-nonnil", m: pat.Bin("!=", raw, pat.Const("nil")), expect: "raw member bytes != nil (collateral completeness)"},
 					gateSpec{rule: "R4/" + d.name, name: "signer-nonnil", m: pat.Bin("!=", signer, pat.Const("nil")), expect: "signing certificate != nil (collateral completeness)"},
 					gateSpec{rule: "R4/" + d.name, name: "root-nonnil", m: pat.Bin("!=", root, pat.Const("nil")), expect: "issuer root certificate != nil (collateral completeness)"},
